@@ -9,16 +9,17 @@ W=/tmp/sc/$P-$N
 rm -rf $W; mkdir -p /tmp/sc
 git -C /repo worktree add --detach $W HEAD >/dev/null 2>&1 || exit 9
 export CARGO_TARGET_DIR=/tmp/sc/target-$CRATE CARGO_NET_OFFLINE=true
+# FEATURES may be set in the environment, e.g. FEATURES="--features rustls-0_23,openssl"
 DEMO=$(ls $SRC/demo-$N.* | head -1)
 EXT=${DEMO##*.}
 mkdir -p $W/$CRATE/tests
 cp $DEMO $W/$CRATE/tests/seed_demo_$N.$EXT
 cd $W
-cargo test --offline -p $CRATE --test seed_demo_$N > /tmp/sc/$P-$N.unchanged.log 2>&1; R0=$?
+cargo test --offline -p $CRATE $FEATURES --test seed_demo_$N > /tmp/sc/$P-$N.unchanged.log 2>&1; R0=$?
 git apply $SRC/patch-$N.diff || { echo "patch does not apply"; exit 8; }
-cargo test --offline -p $CRATE --test seed_demo_$N > /tmp/sc/$P-$N.patched.log 2>&1; R1=$?
+cargo test --offline -p $CRATE $FEATURES --test seed_demo_$N > /tmp/sc/$P-$N.patched.log 2>&1; R1=$?
 rm -f $W/$CRATE/tests/seed_demo_$N.$EXT
-cargo test --offline -p $CRATE > /tmp/sc/$P-$N.suite.log 2>&1; R2=$?
+cargo test --offline -p $CRATE $FEATURES > /tmp/sc/$P-$N.suite.log 2>&1; R2=$?
 cd /
 git -C /repo worktree remove --force $W >/dev/null 2>&1
 echo "seed $P-$N: demo unchanged rc=$R0 (want 0), demo patched rc=$R1 (want !=0), crate suite with patch rc=$R2 (want 0)"
